@@ -165,4 +165,15 @@ PROPS = {
         "assumptions": COMMON_ASSUME + ["well-formed file: ids pairwise distinct, bodies without a `---` line and without CR at end of line"],
         "outside": ["bodies with a line that looks like an entry header `[Test... - n]` (Clean reads it as a header: same root cause as known finding K2)"],
     },
+    "C11": {
+        "runs": [
+            {"harness": "H_C11_location", "params": {"percent": 1}, "quick": {"n": 1}, "thorough": {"n": 2}},
+        ],
+        "bounds": {"quick": "Dir in {unset, relative, nested relative, absolute} x Filename x Ext x test name x sub-test name, each with a symbolic suffix of <= 1 byte over "
+                            "[a-z0-9._%-]; multi-entry / standalone / standalone JSON; 1st and 2nd standalone call; 0..2 helper frames in non-test files (one a closure); with and without trimpath",
+                   "thorough": "suffixes of <= 2 bytes"},
+        "assumptions": COMMON_ASSUME + ["runtime.Caller reports the interpreter's own call stack (real go-snaps frames; harness frames carry the file names the harness tags them with; "
+                                        "testing.tRunner on top); a trimpath build is modelled as runtime.GOROOT()==\"\" with module-relative file names and the package directory as working directory"],
+        "outside": ["what the real runtime reports for inlined frames, wrappers and cgo", "helpers that live in a *_test.go file of another directory", "os.Getwd (any use is reported as inconclusive)"],
+    },
 }
